@@ -28,7 +28,7 @@ FLAVOURS = {
         cc="clang",
         cflags="-O1 -g -fno-omit-frame-pointer %s -fsanitize=fuzzer-no-link -DBR_LE_UNALIGNED=0 -DBR_SLOW_MUL15=1" % SAN,
         cxx="clang++",
-        cxxflags="-std=gnu++17 -O1 -g -fno-omit-frame-pointer %s" % SAN,
+        cxxflags="-std=gnu++17 -O1 -g -fno-omit-frame-pointer -Wno-deprecated-declarations %s" % SAN,
         ldflags=SAN,
     ),
     "rel": dict(
